@@ -1,0 +1,22 @@
+//go:build !verif
+
+// Package verifhook holds observation points used by the external verification
+// harness. Without the "verif" build tag every function is an empty, inlinable
+// stub and the codec behaves exactly as if the calls were absent.
+package verifhook
+
+// NoLoopFilter reports whether the VP8 decoder should skip in-loop deblocking.
+func NoLoopFilter() bool { return false }
+
+// FrameEncoded is called by the VP8 encoder after each encode pass with its
+// reconstruction planes.
+func FrameEncoded(y, u, v []byte, yStride, uvStride, width, height int) {}
+
+// Workers lets the harness lower the worker count chosen at a call site.
+func Workers(site string, n int) int { return n }
+
+// Yield is a schedule perturbation point.
+func Yield(site string, a, b int) {}
+
+// Pool reports a pool Get and whether it was served from the pool.
+func Pool(name string, hit bool) {}
